@@ -118,6 +118,9 @@ package server
 //@   requires tx != nil
 //@   ensures [shape] result.Start.Line == result.End.Line && result.Start.Column <= result.End.Column
 //@   ensures [C08,C09:length_utf16] result.End.Column - result.Start.Column == u16(payee, len(payee))
+//@   ensures [lines] result.Start.Line == tx.Date.Range.Start.Line && result.End.Line == tx.Date.Range.Start.Line
+//@   ensures [length_bound] 0 <= result.End.Column - result.Start.Column && result.End.Column - result.Start.Column <= len(payee)
+//@   ensures [start_col_default] !(tx.DescriptionPos.Line == tx.Date.Range.Start.Line && tx.DescriptionPos.Column > 0) ==> result.Start.Column == tx.Date.Range.End.Column + 1 + ite(tx.Status != 0, 2, 0)
 //@   ensures [C08,C09:starts_at_description] tx.DescriptionPos.Line == tx.Date.Range.Start.Line && tx.DescriptionPos.Column > 0 ==> result.Start.Column == tx.DescriptionPos.Column && result.Start.Line == tx.DescriptionPos.Line
 
 //@ func isValidTagName
@@ -500,7 +503,7 @@ package server
 //@   effects none
 //@   ensures result != nil && result.Primary != nil ==> result.PrimaryPath != ""
 //@   ensures result == wsres(s, docURI)
-//@   ensures [tree_is_parser_output] result != nil ==> (forall p string :: has(result.Files, p) ==> JRefOK(result.Files[p]) && JComOK(result.Files[p])) && (result.Primary != nil ==> JRefOK(result.Primary) && JComOK(result.Primary))
+//@   ensures [tree_is_parser_output] result != nil ==> (forall p string :: has(result.Files, p) ==> JRefOK(result.Files[p]) && JComOK(result.Files[p]) && JPayOK(result.Files[p])) && (result.Primary != nil ==> JRefOK(result.Primary) && JComOK(result.Primary) && JPayOK(result.Primary))
 
 //@ specfun uriPath(u protocol.DocumentURI) string
 //@ trusted uriToPath
@@ -610,21 +613,37 @@ package server
 //@   loop 4 invariant JComOK(journal) && 0 <= i && i < len(journal.Transactions) && 0 - 1 <= rangeindex && rangeindex <= len(journal.Transactions[i].Postings) - 1 && (len(locations) == 0 || fresh(locations))
 //@   loop 4 invariant len(locations) == atloop(1, len(locations)) + ite(includeDeclaration, cntDirCom(journal.Directives, len(journal.Directives), symbol), 0) + cntTxCom(journal.Transactions, i, symbol) + cntCom(journal.Transactions[i].Postings, rangeindex + 1, symbol)
 //@   loop 4 decreases len(journal.Transactions[i].Postings) - rangeindex
-//@ trusted findPayeeReferences
+// References to a payee: within every journal exactly the transactions whose payee (or, without one, whose description)
+// is the name add a location.
+//@ pred TxRefOK(tx) := tx.Date.Range.Start.Line >= 1 && tx.Date.Range.Start.Line <= 2147483647 && tx.Date.Range.End.Column >= 1 && tx.Date.Range.End.Column <= 2147483647 && tx.DescriptionPos.Column >= 0 && tx.DescriptionPos.Column <= 2147483647 && len(tx.Payee) <= 2147483646 && len(tx.Description) <= 2147483646
+//@ pred JPayOK(j) := j != nil && (forall i int :: {j.Transactions[i]} 0 <= i && i < len(j.Transactions) ==> TxRefOK(j.Transactions[i]))
+//@ specdef cntPay(ts []ast.Transaction, i int, name string) int := ite(i <= 0, 0, cntPay(ts, i - 1, name) + ite(ite(ts[i - 1].Payee != "", ts[i - 1].Payee, ts[i - 1].Description) == name, 1, 0))
+//@ func findPayeeReferences
+//@   props C09
+//@   requires [C09:ast_ranges] resolved != nil ==> (forall p string :: has(resolved.Files, p) ==> JPayOK(resolved.Files[p])) && (resolved.Primary != nil ==> JPayOK(resolved.Primary))
+//@   requires [C09:ast_ranges_current] currentJournal != nil ==> JPayOK(currentJournal)
+//@   requires [C09:tree_labelled] resolved != nil && resolved.Primary != nil && resolved.PrimaryPath == "" ==> srcPath(resolved) == currentPath
+//@   loop 1 invariant 0 - 1 <= rangeindex && (forall p string :: has(journals, p) ==> JPayOK(journals[p])) && (len(locations) == 0 || fresh(locations))
+//@   loop 1 invariant forall i int :: {rangeover[i]} 0 <= i && i < len(rangeover) ==> has(journals, rangeover[i])
+//@   loop 1 decreases *
+//@   loop 2 invariant JPayOK(journal) && 0 - 1 <= rangeindex && rangeindex <= len(journal.Transactions) - 1 && (len(locations) == 0 || fresh(locations))
+//@   loop 2 invariant [C09:transactions_counted] len(locations) == atloop(1, len(locations)) + cntPay(journal.Transactions, rangeindex + 1, payee)
+//@   loop 2 decreases len(journal.Transactions) - rangeindex
 
 // findReferences hands the tree and the requesting document's path to the per-kind searches, which label the tree's
 // primary journal with that path (allJournalsWithPaths): the tree must therefore be the requesting document's own.
 //@ func findReferences
 //@   props C09
 //@   requires target != nil
-//@   requires [C09:ast_ranges] resolved != nil ==> (forall p string :: has(resolved.Files, p) ==> JRefOK(resolved.Files[p]) && JComOK(resolved.Files[p])) && (resolved.Primary != nil ==> JRefOK(resolved.Primary) && JComOK(resolved.Primary))
-//@   requires [C09:ast_ranges_current] currentJournal != nil ==> JRefOK(currentJournal) && JComOK(currentJournal)
+//@   requires [C09:ast_ranges] resolved != nil ==> (forall p string :: has(resolved.Files, p) ==> JRefOK(resolved.Files[p]) && JComOK(resolved.Files[p]) && JPayOK(resolved.Files[p])) && (resolved.Primary != nil ==> JRefOK(resolved.Primary) && JComOK(resolved.Primary) && JPayOK(resolved.Primary))
+//@   requires [C09:ast_ranges_current] currentJournal != nil ==> JRefOK(currentJournal) && JComOK(currentJournal) && JPayOK(currentJournal)
 //@   requires [C09:target_named] target.context == DefContextCommodity ==> target.name != ""
 //@   requires [C09:tree_labelled] resolved != nil && resolved.Primary != nil && resolved.PrimaryPath == "" ==> srcPath(resolved) == currentPath
 
 //@ func (*Server).References
 //@   props C09
 //@   requires s != nil && params != nil && DocSmall(s, params.TextDocument.URI)
+//@   requires hasDoc(s, params.TextDocument.URI) ==> len(docOf(s, params.TextDocument.URI)) < 1073741820
 
 // ---- C20: hover figures are aggregates over the whole include tree ----
 // When the server has a resolved tree for the document (the workspace's, else the document's own), the transaction list
